@@ -204,6 +204,11 @@ class AbstractDateTime(AnyAtomicType):
                                              second, microsecond, tzinfo)
             if delta:
                 self._dt += delta
+                if self._dt.year in (5, 7):  # 24:00:00 of December 31st: carry the year
+                    self._year = year = year + 1 if year != -1 else 1
+                    if year != 1:
+                        year = 4 if isleap(year + 1 if year < 0 else year) else 6
+                    self._dt = self._dt.replace(year=year)
 
     def __repr__(self) -> str:
         fields = self.pattern.groupindex.keys()
